@@ -14,11 +14,18 @@ THEOREMS = [
     "Ztr.Shuffle.shuffle_before_listing", "Ztr.Shuffle.find_before_shuffle",
     "Ztr.Shuffle.C11_same_in_every_mode", "Ztr.Shuffle.C11_order_matters",
     "Ztr.Shuffle.C11_children_same_seed", "Ztr.Shuffle.C11_rerun_reported",
+    "Ztr.Handover.H_roundtrip", "Ztr.Handover.H_roundtrip_seed", "Ztr.Handover.H_seed_in_front",
+    "Ztr.Handover.H_parent", "Ztr.Handover.H_cut_short", "Ztr.Handover.H_default_first_witness",
 ]
+LEAN_DEPS = ["Ztr.Props.C11Handover"]
 RULE = ("seeds (0, small, negative, 2**63, random) x dicts of 0..6 layers (names in random insertion order) with 0..40 "
         "tests each; the real Shuffle.global_setup runs on a stub runner with math.floor wrapped to record the index "
         "stream; non-trivial = some layer has >= 2 tests; distinct by (seed, layer sizes, names). Seed hand-over: "
-        "real spawn_layer_in_subprocess with a fake Popen, child argv parsed by the real get_options.")
+        "real spawn_layer_in_subprocess with a fake Popen, child argv parsed by the real get_options.  Command-line "
+        "hand-over (Model/Handover): layer names, default lists and user words over an alphabet that contains "
+        "'--default', '--resume-layer', '--', '' and option-looking words; the real spawn_layer_in_subprocess composes "
+        "(fake Popen), the real Runner.configure takes apart (get_options replaced by a recorder), both compared with "
+        "the model word for word; random word lists (also ill-formed child command lines) go to configure as well.")
 ASSUMPTIONS = [
     "random.Random(seed).random() is a deterministic function of the seed (stdlib guarantee); the index stream "
     "floor(r*(i+1)) is recorded from the real code, and 0 <= j <= i is asserted at run time",
@@ -181,6 +188,7 @@ def run(ctx):
         if model != [(n_, ids) for n_, ids in res]:
             ctx.drift("shuffle", "model %r real %r" % (model, res), case)
     seed_handover(ctx)
+    handover_model(ctx)
     # end to end: one seed, every mode (listing with and without -j, sequential, -j N)
     from harness import corr_c03
     corr_c03.shuffle_modes(ctx)
@@ -307,6 +315,141 @@ def seed_handover(ctx):
         if copts.shuffle_seed is None or child.seed != parent.seed or not copts.shuffle:
             ctx.violation("child of %r would shuffle with its own seed (given %r) instead of the parent's %r"
                           % (args, copts.shuffle_seed, parent.seed), case, signature="child-seed")
+
+
+WORDS = {0: "--resume-layer", 1: "--default", 2: "-t", 3: "foo", 4: "--shuffle", 5: "--", 6: "", 7: "m.A",
+         8: "--default=x", 9: "--shuffle-seed=5", 10: "-vv", 11: "zope.testrunner.layer.UnitTests", 12: "--defaults",
+         13: "seven", 14: " --default", 15: "--resume-layer=m.A", 16: "1e3", 17: "0x10", 18: "m.B c"}
+
+
+def _word(c):
+    return str(c - 1000) if c >= 1000 else WORDS[c]
+
+
+def _code(w):
+    for c, x in WORDS.items():
+        if x == w:
+            return c
+    return 1000 + int(w)
+
+
+class _Captured(Exception):
+    pass
+
+
+def _real_configure(given, words):
+    """Runner.configure up to its call of get_options: (resume, defaults, args) or the exception raised"""
+    import sys
+    from zope.testrunner import runner as zrunner
+
+    def recorder(args, defaults):
+        raise _Captured(list(args), list(defaults))
+    r = zrunner.Runner(defaults=list(given), args=["prog"] + list(words))
+    saved_stdin, saved_get = sys.stdin, zrunner.get_options
+    zrunner.get_options = recorder
+    try:
+        r.configure()
+    except _Captured as c:
+        args, defaults = c.args
+        return {"raises": False, "args": args[1:], "defaults": defaults, "prog": args[0]}
+    except (IndexError, ValueError) as e:
+        return {"raises": True, "exc": type(e).__name__}
+    finally:
+        zrunner.get_options = saved_get
+        sys.stdin = saved_stdin
+    return {"raises": True, "exc": "configure returned without calling get_options"}
+
+
+def handover_model(ctx):
+    """Model/Handover against the real composer (spawn_layer_in_subprocess) and the real Runner.configure"""
+    import random
+    from zope.testrunner import runner as zrunner
+    from zope.testrunner.options import get_options
+    rng = random.Random(ctx.seed * 7919 + 17)
+    alphabet = sorted(WORDS)
+    n = 150 if ctx.quick() else 1500
+    with contextlib.redirect_stdout(io.StringIO()):
+        base = get_options(["prog"], [])
+    base.resume_layer = base.resume_number = None
+
+    def words(k, heavy=()):
+        pool = alphabet + list(heavy) * 4 + [1000 + rng.randrange(0, 40)]
+        return [rng.choice(pool) for _ in range(k)]
+    cases = []
+    for i in range(n):
+        name = rng.choice(alphabet)
+        num = rng.randrange(0, 12)
+        defaults = words(rng.choice([0, 0, 1, 2, 3]), heavy=(0, 1))
+        seed = 9 if rng.random() < 0.4 else None
+        user = words(rng.choice([0, 1, 2, 4]), heavy=(1, 5))
+        # the parent's own option parser rejects '--default' as an argument: such command lines never reach the composer
+        if seed is None and user[:1] == [1]:
+            user[0] = 14 if i % 2 else 8
+        cases.append((name, num, defaults, seed, user))
+    # directed: names and defaults that are protocol words, a seed in front of '--default'
+    cases += [(1, 0, [], None, []), (0, 1, [1, 0], None, [5, 3]), (1, 2, [1], 9, [1, 3, 5]), (6, 3, [6], None, [6]),
+              (7, 4, [5], 9, [5, 1])]
+    q1 = [{"op": "handover", "mode": "compose", "name": nm, "num": k, "defaults": ds, "seed": sd, "user": us}
+          for nm, k, ds, sd, us in cases]
+    a1 = ctx.driver.batch(q1)
+    tails = []
+    for (nm, k, ds, sd, us), ans in zip(cases, a1):
+        base.testrunner_defaults = [_word(c) for c in ds]
+        base.shuffle = sd is not None
+        base.shuffle_seed = 5 if sd is not None else None
+        base.original_testrunner_args = ["prog"] + [_word(c) for c in us]
+        fake = fakeproc.FakePopen({"stdout": b"", "stderr": b"0 0 0\n"})
+        with fakeproc.patched_popen(fake), contextlib.redirect_stdout(io.StringIO()):
+            zrunner.spawn_layer_in_subprocess(fakeproc.SinkResult(), ["-m", "zope.testrunner"], base, [],
+                                              _word(nm), object(), [], [], [], k)
+        argv = fake.calls[0]
+        real_tail = argv[3:]          # behind [sys.executable, '-m', 'zope.testrunner']
+        case = {"name": _word(nm), "num": k, "defaults": base.testrunner_defaults, "seed": sd is not None,
+                "user": base.original_testrunner_args[1:], "real_argv": argv, "model": ans}
+        ctx.count(("handover-compose", nm, k, tuple(ds), sd, tuple(us)), nontrivial=bool(ds or us), sample=None)
+        ctx.bump("handover-compose")
+        tails.append(real_tail)
+        if "error" in ans:
+            ctx.drift("handover.compose", "driver error %s" % ans["error"], case)
+            continue
+        if [_word(c) for c in ans["tail"]] != real_tail or argv[:3] != [__import__("sys").executable, "-m", "zope.testrunner"]:
+            ctx.drift("handover.compose", "child command line %r, model %r" % (real_tail, [_word(c) for c in ans["tail"]]), case)
+    # the way back: the composed lines, and arbitrary word lists (cut, ill-formed, not a child's at all)
+    back = [([], [_code(w) for w in t]) for t in tails]
+    for i in range(n):
+        ws = words(rng.choice([0, 1, 2, 3, 5, 8]), heavy=(0, 1))
+        if rng.random() < 0.6:
+            ws = [0] + ws
+        back.append((words(rng.choice([0, 1, 2])), ws))
+    q2 = [{"op": "handover", "mode": "configure", "given": g, "args": ws} for g, ws in back]
+    a2 = ctx.driver.batch(q2)
+    for k, ((g, ws), ans) in enumerate(zip(back, a2)):
+        real = _real_configure([_word(c) for c in g], [_word(c) for c in ws])
+        case = {"given": [_word(c) for c in g], "argv": ["prog"] + [_word(c) for c in ws], "real": real, "model": ans}
+        ctx.count(("handover-configure", tuple(g), tuple(ws)), nontrivial=ws[:1] == [0], sample=None)
+        ctx.bump("handover-configure")
+        if "error" in ans:
+            ctx.drift("handover.configure", "driver error %s" % ans["error"], case)
+            continue
+        if k < len(cases) and not real["raises"]:
+            # monitor (H_roundtrip on the real code): the child recovers the user's words behind at most the seed option,
+            # and exactly the defaults
+            nm, kk, ds, sd, us = cases[k]
+            want_args = (["--shuffle-seed=5"] if sd is not None else []) + [_word(c) for c in us]
+            if real["args"] != want_args or real["defaults"] != [_word(c) for c in ds]:
+                ctx.violation("a layer subprocess started for parent arguments %r (defaults %r) hands %r (defaults %r) to its "
+                              "option parser" % ([_word(c) for c in us], [_word(c) for c in ds], real["args"], real["defaults"]),
+                              case, signature="handover-roundtrip")
+                continue
+        if k < len(cases) and real["raises"]:
+            ctx.violation("a layer subprocess cannot take its own command line apart: %r raises %s" % (case["argv"], real.get("exc")),
+                          case, signature="handover-roundtrip")
+            continue
+        if real["raises"] != ans["raises"]:
+            ctx.drift("handover.configure", "real %r model %r" % (real, ans), case)
+        elif not real["raises"]:
+            if real["args"] != [_word(c) for c in ans["args"]] or real["defaults"] != [_word(c) for c in ans["defaults"]]:
+                ctx.drift("handover.configure", "real %r model %r" % (real, ans), case)
 
 
 def replay(ctx, obj):
